@@ -7,5 +7,5 @@ import (
 
 // TestCounts prints the sizes of the enumerated case spaces (used by the runner).
 func TestCounts(t *testing.T) {
-	fmt.Printf("COUNT kinds=%d cutresp=%d lenfuzz=%d connerr=%d saslraw=%d sizecut=%d\n", len(WireKinds), CutCases(), LenCases(), ConnErrCases(), SaslRawCases(), SizeCutCases())
+	fmt.Printf("COUNT kinds=%d cutresp=%d lenfuzz=%d connerr=%d saslraw=%d sizecut=%d stallclose=%d\n", len(WireKinds), CutCases(), LenCases(), ConnErrCases(), SaslRawCases(), SizeCutCases(), StallCloseCases())
 }
